@@ -433,7 +433,8 @@ def _transition_on(chk, repo, ci, iface, fn, src):
             for pats in (["$n+=$n1", "$span=$xp-$xm", "$s=$s1*int($span@$rm.T>=0)*int($span@$rp.T>=0)", "$j+=1"],
                          ["$n+=$n1", "$s=$s1*int(($xp-$xm)@$rm.T>=0)*int(($xp-$xm)@$rp.T>=0)", "$j+=1"],
                          ["$n+=$n1", "$s=$s1*(int(($xp-$xm)@$rm.T>=0)*int(($xp-$xm)@$rp.T>=0))", "$j+=1"],
-                         ["$n+=$n1", "$s=$s1*int(0<=($xp-$xm)@$rm.T)*int(0<=($xp-$xm)@$rp.T)", "$j+=1"]):
+                         ["$n+=$n1", "$s=$s1*int(0<=($xp-$xm)@$rm.T)*int(0<=($xp-$xm)@$rp.T)", "$j+=1"],
+                         ["$n+=$n1", "$s=$s1*(int(0<=($xp-$xm)@$rm.T)*int(0<=($xp-$xm)@$rp.T))", "$j+=1"]):
                 bb, used = unify(pats, body, b)
                 if bb is not None:
                     break
